@@ -292,18 +292,18 @@ func isCondTest(in ssa.Instruction) bool {
 // discardTable: (function -> callee) pairs whose Condition result is
 // deliberately not propagated.
 var discardTable = map[string]string{
-	"(*Context).Log10 -> (*Context).Ln":                    "Log10 raises Inexact itself and re-rounds; Ln's flags describe the intermediate",
-	"(*Context).Exp -> (*Context).Quo":                     "argument reduction r = x/10^t; Exp reports Inexact|Rounded itself",
-	"(*loop).done -> (*Context).Sub":                       "convergence delta; only the error matters",
-	"(*Decimal).SetFloat64 -> (*Decimal).SetString":        "API has no Condition result",
-	"(*Decimal).Scan -> (*Decimal).SetString":              "API has no Condition result",
-	"(*Decimal).UnmarshalText -> (*Decimal).SetString":     "API has no Condition result",
-	"makeConst -> (*Decimal).SetString":                    "package constant; error is checked",
-	"makeConstWithPrecision -> (*Decimal).SetString":       "package constant; error is checked",
-	"makeConstWithPrecision -> (*Context).Round":           "package constant; error is checked",
-	"(*Context).Ln -> (*Decimal).SetFloat64":               "initial estimate only",
-	"(*Context).Cbrt -> (*Context).goError":                "kept: res,err both used",
-	"(*Context).Cbrt -> (*Context).round":                  "the nearest-rounded candidate of the exactness test: its flags describe a value that is only compared with the operand (the result's own rounding is a second call, whose flags are returned)",
+	"(*Context).Log10 -> (*Context).Ln":                "Log10 raises Inexact itself and re-rounds; Ln's flags describe the intermediate",
+	"(*Context).Exp -> (*Context).Quo":                 "argument reduction r = x/10^t; Exp reports Inexact|Rounded itself",
+	"(*loop).done -> (*Context).Sub":                   "convergence delta; only the error matters",
+	"(*Decimal).SetFloat64 -> (*Decimal).SetString":    "API has no Condition result",
+	"(*Decimal).Scan -> (*Decimal).SetString":          "API has no Condition result",
+	"(*Decimal).UnmarshalText -> (*Decimal).SetString": "API has no Condition result",
+	"makeConst -> (*Decimal).SetString":                "package constant; error is checked",
+	"makeConstWithPrecision -> (*Decimal).SetString":   "package constant; error is checked",
+	"makeConstWithPrecision -> (*Context).Round":       "package constant; error is checked",
+	"(*Context).Ln -> (*Decimal).SetFloat64":           "initial estimate only",
+	"(*Context).Cbrt -> (*Context).goError":            "kept: res,err both used",
+	"(*Context).Cbrt -> (*Context).round":              "the nearest-rounded candidate of the exactness test: its flags describe a value that is only compared with the operand (the result's own rounding is a second call, whose flags are returned)",
 }
 
 // partialDropOK: (function -> callee) pairs whose flags are deliberately left out of some returns.
